@@ -62,6 +62,18 @@ func errMsgs(r *CallResult) []string {
 	return out
 }
 
+// errMsgsShort is errMsgs for messages: long lists are shown by their first
+// six and last three elements.
+func errMsgsShort(r *CallResult) []string {
+	m := errMsgs(r)
+	if len(m) <= 12 {
+		return m
+	}
+	out := append([]string(nil), m[:6]...)
+	out = append(out, fmt.Sprintf("... %d more ...", len(m)-9))
+	return append(out, m[len(m)-3:]...)
+}
+
 // campaignC16 re-executes one (grammar, input, options) under a deadline at
 // every expression tick and compares each bounded run with the reference.
 func campaignC16(p *Parser, req *Request, resp *Response) {
